@@ -584,7 +584,9 @@ ADV = [('simple', ['gnm', 5, 7]), ('simple', ['gnm', 4, 6]), ('simple', ['gnd', 
        ('simple', ['complete', 4, 'splitedges', 6]), ('simple', ['gnm', 5, 4, 'plantclique', 4]),
        ('bipartite', ['glrm', 3, 3, 3]), ('bipartite', ['glrm', 3, 3, 4]), ('bipartite', ['glrm', 3, 3, 9]), ('bipartite', ['glrm', 4, 3, 4]),
        ('bipartite', ['regular', 3, 3, 2]), ('bipartite', ['regular', 4, 2, 1]), ('bipartite', ['regular', 4, 4, 3]),
-       ('bipartite', ['empty', 3, 3, 'addedges', 9]), ('bipartite', ['glrd', 3, 3, 1, 'addedges', 5]), ('bipartite', ['glrd', 3, 4, 4])]
+       ('bipartite', ['empty', 3, 3, 'addedges', 9]), ('bipartite', ['glrd', 3, 3, 1, 'addedges', 5]), ('bipartite', ['glrd', 3, 4, 4]),
+       ('bipartite', ['regular', 2, 4, 2]), ('bipartite', ['regular', 3, 6, 4]), ('bipartite', ['regular', 4, 6, 3]), ('bipartite', ['regular', 6, 4, 2]),
+       ('bipartite', ['regular', 6, 9, 6]), ('bipartite', ['regular', 9, 6, 4])]
 
 
 def _adversarial(ci, si):
@@ -624,12 +626,12 @@ def _adversarial(ci, si):
 
 def h_e_adversarial(ci: int, si: int) -> bool:
     """
-    pre: 0 <= ci <= 19 and 0 <= si <= 5
+    pre: 0 <= ci <= 25 and 0 <= si <= 5
     post: _
     """
     # fixed (deterministic, adversarial) draw streams instead of all outcomes: repeated / slowly varying values force the
     # retry loops to give up and the dense fallbacks to run at sizes the exhaustive exploration cannot reach
-    return untraced(_adversarial, pick(ci, 0, 19), pick(si, 0, 5))
+    return untraced(_adversarial, pick(ci, 0, 25), pick(si, 0, 5))
 
 
 def h_e_modifiers_0(base: int, k: int) -> bool:
@@ -686,3 +688,68 @@ def h_e_bip_addedges(base: int, a: int) -> bool:
     tape = Tape(limit=6)
     aa = pick(a, -1, 3)
     return _finish(untraced(_bip_modifiers, pick(base, 0, 3), 7 if aa == 3 else aa, 0, 1, tape), tape)
+
+
+# ------------------------------------------------- 'regular' under draw streams on which every attempt dead-ends
+REG = [(3, 6, 4), (4, 6, 3), (6, 4, 2), (6, 9, 6), (9, 6, 4), (5, 10, 8), (10, 4, 2), (3, 3, 2), (4, 4, 3), (8, 12, 9)]
+
+
+class _DeadEnd(Exception):
+    pass
+
+
+def _deadend_period(l, r, d, k):
+    """the draws of one attempt of the sampler that ends in a dead end (found by running the real code on pseudo-random
+    draws until it asks for a fresh attempt), or None.  Repeated cyclically they make EVERY attempt end that way."""
+    import random as _r
+    rng = _r.Random(1000 * k + 7)
+    rec = []
+    tape = Tape(concrete=lambda i: rec[i] if i < len(rec) else rec.append(rng.randrange(1 << 30)) or rec[-1], limit=3000)
+    saved = G.bipartite_random_regular
+
+    def again(*a, **kw):
+        raise _DeadEnd()
+    try:
+        with environment(tape):
+            G.bipartite_random_regular = again        # the sampler restarts itself through the module-level name
+            try:
+                saved(l, r, d)
+            except _DeadEnd:
+                return rec[:len(tape.log)]
+            except TapeExhausted:
+                return None
+            finally:
+                G.bipartite_random_regular = saved
+    finally:
+        G.bipartite_random_regular = saved
+    return None
+
+
+def _regular_deadend(ri, k):
+    """the sampler behind 'regular L R d' answers a dead end by a fresh attempt.  On a periodic stream whose period is one
+    dead-ending attempt it can only go on until the draws (or the stack) run out, or give up with an error - neither is
+    a verdict here - but a graph it RETURNS is regular of the requested degrees on both sides (R not dividing L included)."""
+    l, r, d = REG[ri]
+    per = _deadend_period(l, r, d, k)
+    if not per:
+        return True
+    tape = Tape(concrete=lambda i: per[i % len(per)], limit=60000)
+    try:
+        st, g = _build('bipartite', ['regular', l, r, d], tape)
+    except RecursionError:
+        return True
+    if st != 'ok':
+        return True
+    E = _bip_edges(g)
+    if (g.left_order(), g.right_order()) != (l, r) or len(set(E)) != len(E):
+        return False
+    return all(sum(1 for e in E if e[0] == u) == d for u in range(1, l + 1)) and \
+        all(sum(1 for e in E if e[1] == v) == d * l // r for v in range(1, r + 1))
+
+
+def h_e_regular_deadend(ri: int, k: int) -> bool:
+    """
+    pre: 0 <= ri <= 9 and 0 <= k <= 5
+    post: _
+    """
+    return untraced(_regular_deadend, pick(ri, 0, 9), pick(k, 0, 5))
